@@ -222,7 +222,9 @@ def run_history(gname, hist):
             bad.append(("live parser differs from a fresh one", k))
         if table_digest(p) != td:
             bad.append(("live parser's table differs from a fresh one", k))
-    for k in ("LR", "GLR", "SLR"):
+    # (SLR is covered as a live parser kind; building it once more after
+    # every history would cost a third of the run)
+    for k in ("LR", "GLR"):
         try:
             p = mk(g, k)
             obs, td = oracle(gname, k)
@@ -324,7 +326,7 @@ def evidence(total, tier, seed, complete):
                 "syntactically invalid / semantically invalid text - on three "
                 "grammars (plain, LAYOUT, named matches), executed by the real "
                 "code without state pruning; afterwards every live parser and "
-                "three parsers freshly built on the used Grammar must observe "
+                "two parsers (LR, GLR) freshly built on the used Grammar must observe "
                 "and serialise exactly like parsers built on a fresh Grammar; "
                 "states = distinct digests of (augmented production, FIRST "
                 "sets, symbol actions, live tables); non-trivial = history "
